@@ -206,6 +206,10 @@ func e2eTypeHist(engine, spelling string, nn, array bool, hist int) (impl J, fil
 		ph = "?"
 	}
 	query := fmt.Sprintf("-- name: GetC :one\nSELECT c FROM t WHERE k = 1;\n\n-- name: ByC :many\nSELECT k FROM t WHERE c = %s;\n\n-- name: InsC :exec\nINSERT INTO t (k, c) VALUES (1, %s);\n\n-- name: All :many\nSELECT * FROM t;\n\n-- name: Filled :many\nSELECT k, coalesce(c, c) AS c FROM t;\n", ph, ph)
+	if engine == "postgresql" {
+		// the type spelled in a CAST around a placeholder, wherever the placeholder stands
+		query += fmt.Sprintf("\n-- name: ByCast :many\nSELECT k FROM t WHERE c = $1::%s;\n\n-- name: InsCast :exec\nINSERT INTO t (k, c) VALUES (2, $1::%s);\n\n-- name: SetCast :exec\nUPDATE t SET c = $1::%s WHERE k = 3;\n", ty, ty, ty)
+	}
 	files = map[string]string{"schema.sql": schema, "query.sql": query, "sqlc.json": confV1(engine, "")}
 	res = generate(files)
 	impl = J{"ok": res.OK()}
@@ -228,6 +232,11 @@ func e2eTypeHist(engine, spelling string, nn, array bool, hist int) (impl J, fil
 	}
 	if m := sum.method("All"); m != nil && len(m.Results) > 0 {
 		impl["star"] = m.Results[0]
+	}
+	for k, mn := range map[string]string{"castparam": "ByCast", "castins": "InsCast", "castset": "SetCast"} {
+		if m := sum.method(mn); m != nil && len(m.Params) == 1 {
+			impl[k] = m.Params[0].Type
+		}
 	}
 	// a NOT NULL expression under the column's own name, generated AFTER the plain queries of the package:
 	// whatever struct is returned, its C field must have the documented NOT NULL type
